@@ -486,6 +486,12 @@ func converterHandler(w http.ResponseWriter, r *http.Request, templateName strin
 
 	// Actual parsing occurs from here on ... (if either POST is sent, or if immediate execution is demanded via URL parameter)
 
+	// The conversion is parameterized via process-wide switches (set by the output-specific handlers below), and
+	// logging redirects the process-wide output streams. Requests are served concurrently, so conversions must
+	// be serialized - otherwise one request's settings leak into the response of another.
+	conversionLock.Lock()
+	defer conversionLock.Unlock()
+
 	// Initialize request-specific logfile first
 	if Logging {
 		log.Println("Logging enabled")
